@@ -47,7 +47,7 @@ BOUNDS = {
               'solver_timeout_s': 120},
     'thorough': {'num_bits': [4, 8, 16], 'symmetric': [True, False],
                  'element_laws': 'one symbolic element per law',
-                 'broadcast_law': 'ranks 0..4, dims<=3, every quantized '
+                 'broadcast_law': 'ranks 1..4, dims<=3, every quantized '
                                   'dimension',
                  'solver_timeout_s': 600},
 }
@@ -765,7 +765,7 @@ def jobs(tier, seed):
       js.append(Job(f'bits:{kind}:{nb}:{"sym" if sym else "asym"}', job_bits,
                     {'kind': kind, 'nb': nb, 'sym': sym, 'timeout': to}))
   shapes = [(2,), (2, 2), (1, 2), (2, 1, 2)] if tier == 'quick' else [
-      (), (3,), (2, 3), (3, 2), (2, 1, 2), (2, 2, 2), (1, 2, 1, 2)]
+      (3,), (2, 3), (3, 2), (2, 1, 2), (2, 2, 2), (1, 2, 1, 2)]
   for shp in shapes:
     for qd in [None] + list(range(len(shp))):
       for nb, sym in ((8, True), (8, False), (4, True)) if tier == 'quick' \
